@@ -326,7 +326,28 @@ Definition config_keys : list (str * ty) :=
     (B "require-template-schema-exists", TBool); (B "template", TStr);
     (B "template-data", TAnyMap); (B "template-schema", TStr) ].
 
+(* mapstructure matches a struct field to the map key of exactly that name, else to a key that
+   differs only in letter case (strings.EqualFold; modelled for ASCII letters - the field names
+   have no others); with ErrorUnused every key must be matched, so two keys of one mapping that
+   fold to the same field are an error.  At the top level the file is first merged (by exact
+   key) into the default configuration, which has all twenty Config keys in lower case: there
+   only the exact spelling of a Config key survives. *)
+Definition lower_byte (b : byte) : byte :=
+  let n := Byte.to_nat b in
+  if Nat.leb 65 n && Nat.leb n 90
+  then match Byte.of_nat (n + 32) with Some c => c | None => b end
+  else b.
+Definition lower (k : str) : str := map lower_byte k.
+Definition keq (a b : str) : bool := seqb (lower a) (lower b).
+Fixpoint assoc_ci {A} (k : str) (l : list (str * A)) : option A :=
+  match l with
+  | [] => None
+  | (k', v) :: t => if keq k k' then Some v else assoc_ci k t
+  end.
+Definition nodup_ci (l : list str) : bool := nodupb (map lower l).
+
 Definition is_str (v : yv) : bool := match v with YStr _ => true | _ => false end.
+Definition is_null (v : yv) : bool := match v with YNull => true | _ => false end.
 
 Definition replace_leaf (v : yv) : bool :=
   match v with
@@ -345,7 +366,7 @@ Definition has_ty (t : ty) (v : yv) : bool :=
     match t, v with
     | TBool, YBool _ => true
     | TStr, YStr _ => true
-    | TStrList, YList l => forallb is_str l
+    | TStrList, YList l => forallb (fun x => is_str x || is_null x) l   (* a null element is "" *)
     | TAnyMap, YMap _ => true
     | TReplace, _ => map_of (map_of replace_leaf) v
     | _, _ => false
@@ -353,7 +374,8 @@ Definition has_ty (t : ty) (v : yv) : bool :=
   end.
 
 Definition check_cfg (m : list (str * yv)) : bool :=
-  forallb (fun e => match assoc (fst e) config_keys with
+  nodup_ci (map fst m) &&
+  forallb (fun e => match assoc_ci (fst e) config_keys with
                     | Some t => has_ty t (snd e)
                     | None => false
                     end) m.
@@ -363,9 +385,9 @@ Definition check_cfg_node (v : yv) : bool :=
 Definition check_iface (v : yv) : bool :=
   match v with
   | YNull => true
-  | YMap m => forallb (fun e =>
-      if seqb (fst e) kconfig then check_cfg_node (snd e)
-      else if seqb (fst e) kconfigs then
+  | YMap m => nodup_ci (map fst m) && forallb (fun e =>
+      if keq (fst e) kconfig then check_cfg_node (snd e)
+      else if keq (fst e) kconfigs then
         match snd e with YNull => true | YList l => forallb check_cfg_node l | _ => false end
       else false) m
   | _ => false
@@ -374,19 +396,24 @@ Definition check_iface (v : yv) : bool :=
 Definition check_pkg (v : yv) : bool :=
   match v with
   | YNull => true
-  | YMap m => forallb (fun e =>
-      if seqb (fst e) kconfig then check_cfg_node (snd e)
-      else if seqb (fst e) kinterfaces then map_of check_iface (snd e)
+  | YMap m => nodup_ci (map fst m) && forallb (fun e =>
+      if keq (fst e) kconfig then check_cfg_node (snd e)
+      else if keq (fst e) kinterfaces then map_of check_iface (snd e)
       else false) m
   | _ => false
   end.
 
-(* top level: the squashed Config keys plus `packages` *)
+(* top level: the squashed Config keys (exact spelling, see above) plus `packages` *)
+(* the loader is run with `--config <file>`: the flag value replaces whatever the file has under
+   the top-level key `config` before anything is decoded *)
+Definition check_top_entry (e : str * yv) : bool :=
+  if seqb (fst e) kconfig then true
+  else match assoc (fst e) config_keys with Some t => has_ty t (snd e) | None => false end.
 Definition check_root (v : yv) : bool :=
   match v with
-  | YMap m => forallb (fun e =>
-      if seqb (fst e) kpackages then map_of check_pkg (snd e)
-      else check_cfg [e]) m
+  | YMap m => nodup_ci (map fst m) && forallb (fun e =>
+      if keq (fst e) kpackages then map_of check_pkg (snd e)
+      else check_top_entry e) m
   | _ => false
   end.
 
@@ -394,16 +421,15 @@ Inductive lresult := LoadOk | LoadErr | LoadPanic.
 
 (* A null entry in a `configs` list passes the decoder (nil *Config) and is then dereferenced by
    InterfaceConfig.Initialize -> mergeConfigs: run-time panic.  (migrate never writes one.) *)
-Definition is_null (v : yv) : bool := match v with YNull => true | _ => false end.
 Definition iface_null_sub (v : yv) : bool :=
   match v with
-  | YMap m => existsb (fun e => seqb (fst e) kconfigs &&
+  | YMap m => existsb (fun e => keq (fst e) kconfigs &&
                          match snd e with YList l => existsb is_null l | _ => false end) m
   | _ => false
   end.
 Definition under (k : str) (f : yv -> bool) (v : yv) : bool :=
   match v with
-  | YMap m => existsb (fun e => seqb (fst e) k &&
+  | YMap m => existsb (fun e => keq (fst e) k &&
                          match snd e with YMap im => existsb (fun e' => f (snd e')) im | _ => false end) m
   | _ => false
   end.
